@@ -2,8 +2,9 @@
 PID = "C11"
 CASE_LIMIT = {"C11": 15}   # seconds: these cases are function calls, not sessions
 EXACT = True
-RULE = ("op sequences (slice/pfx/grow/ensure/make/copy/append/swap/zero/less/hash/sort/ptr) over a pool of "
-        "frames and aliasing views for 9 column-type schemas; after every op every allocation and every "
+RULE = ("op sequences (slice/pfx/grow/ensure/make/copy/append/swap/zero/less/hash/sort/ptr, and codec = the view written by the row-stream "
+        "encoder and decoded into a fresh frame) over a pool of "
+        "frames and aliasing views for 11 column-type schemas (two with a custom-codec column); after every op every allocation and every "
         "frame (read through Index/Value/Interface) is dumped and compared with the Lean model; "
         "non-trivial = the sequence contains a mutating op on a view with non-zero offset or a reallocation; "
         "distinct = distinct case text")
@@ -15,6 +16,7 @@ ASSUMPTIONS = ["int sizes do not overflow", "values are images of small naturals
 SCHEMAS = [
     (["i64"], 1), (["i64", "i64"], 2), (["str", "i64"], 2), (["i32", "str", "st"], 2), (["i8", "pt"], 1),
     (["i16", "sl", "arr"], 1), (["bytes", "f64"], 2), (["str", "str", "i8"], 3), (["u16", "bool", "f32", "int"], 4),
+    (["i64", "cc"], 1), (["str", "cc", "i32"], 1),      # a column with a registered custom codec
 ]
 
 
@@ -90,6 +92,11 @@ def gen_case(r, maxops, invalid):
             ops.append("make %d %d" % (l, c))
             if l <= c:
                 frames.append([l, c])
+        elif k < 52:
+            ops.append("copy %d %d" % (a, r.below(len(frames))))
+        elif k < 55 and "pt" not in kinds:      # gob cannot encode nil pointer elements (value 0 of a pointer column)
+            ops.append("codec %d" % a)
+            frames.append([ln, ln])
         elif k < 55:
             ops.append("copy %d %d" % (a, r.below(len(frames))))
         elif k < 62:
@@ -140,7 +147,7 @@ def shrink_candidates(case):
     head, _, rest = case.partition(" ; ")
     ops = rest.split(" ; ") if rest else []
     # removing an op that creates a frame renumbers later frames: only drop from the end, or non-creating ops
-    creating = ("slice", "pfx", "grow", "ensure", "make", "append")
+    creating = ("slice", "pfx", "grow", "ensure", "make", "append", "codec")
     if ops:
         yield head + " ; " + " ; ".join(ops[:-1]) if len(ops) > 1 else head
     for i in range(len(ops)):
